@@ -431,9 +431,11 @@ def e2e_engine(pid, spec, tier, seed, workdir, res):
     for r in runs:
         prof = r['profile']
         n = r['n_thorough'] if tier == 'thorough' else r['n_quick']
-        out = os.path.join(workdir, prof)
+        out = os.path.join(workdir, prof + '-' + r.get('backend', 'mem'))
         os.makedirs(out, exist_ok=True)
-        env = dict(VERIF_PROFILE=prof, VERIF_N=str(n), VERIF_SEED=str(seed), VERIF_CORPUS=os.path.join(ROOT, 'corpus', pid))
+        env = dict(VERIF_PROFILE=prof, VERIF_N=str(n), VERIF_SEED=str(seed), VERIF_CORPUS=os.path.join(ROOT, 'corpus', pid),
+                   VERIF_BACKEND=r.get('backend', ''))
+        res['distribution']['backend:' + r.get('backend', 'mem')] = res['distribution'].get('backend:' + r.get('backend', 'mem'), 0) + n
         rc, log = run_harness(r.get('test', 'TestE2E'), env, out)
         if rc != 0 or not os.path.exists(os.path.join(out, 'impl.txt')):
             cur = os.path.join(out, 'current.case')
